@@ -5,11 +5,12 @@
 # off here unless VERIF_NO_ESCALATE=0 is given, so that the result says what the requested tier catches by itself.
 set -u
 patch="$(realpath "$1")"; id="$2"; tier="${3:-quick}"
+root="$(cd "$(dirname "$0")/.." && pwd)"
 wt="/tmp/wt_try_$$"; sc="/tmp/try_out_$$"
 git -C /repo worktree add -q --detach "$wt" HEAD || exit 2
 mkdir -p "$sc"
 if ! git -C "$wt" apply "$patch"; then echo "patch does not apply"; git -C /repo worktree remove --force "$wt"; rm -rf "$sc"; exit 2; fi
-cd /verif
+cd "$root"
 VERIF_NO_ESCALATE="${VERIF_NO_ESCALATE:-1}" VERIF_REPO="$wt" VERIF_EVID_DIR="$sc" VERIF_OUT_DIR="$sc" ./check "$id" --tier "$tier" 2>&1 | grep -E "VIOLATION|KNOWN-FINDING|site=|broken|^\[$id\]" | head -12
 rc=${PIPESTATUS[0]}
 git -C /repo worktree remove --force "$wt"; rm -rf "$sc"
